@@ -18,9 +18,11 @@ from __future__ import annotations
 
 import ast
 
+from consteval import ModuleEnv, NotConst
 from extract import emit, parse
 
 SRC = "spsdk/crypto/keys.py"
+CERT_SRC = "spsdk/crypto/certificate.py"
 
 
 class Shape(Exception):
@@ -326,6 +328,79 @@ def g_init_params(tree, cls):
     return [x.arg for x in a.posonlyargs + a.args + a.kwonlyargs if x.arg != "self"], a.kwarg is not None, (a.kwarg.arg if a.kwarg else "")
 
 
+def g_cert_pad(tree):
+    """How `Certificate.parse` gets rid of the zero padding of the NXP (4-byte aligned) encoding.
+
+    Returns (mode, stripped byte values, needs_extra_data):
+      mode 0 = retry loop: `while True: try: return load(data) except ValueError: if <tests>: data = data[:-1] else: raise` -
+               ONE byte is removed per failed attempt, only while the loader keeps failing;
+      mode 1 = unconditional strip (`data.rstrip(...)` / `.strip(...)` anywhere in `parse`) BEFORE the loader sees the data.
+    The stripped byte(s) are read BY VALUE (consteval); `needs_extra_data` = the loop also tests for the loader's "ExtraData" error kind.
+    """
+    env = ModuleEnv(tree)
+    fn = find(tree, "Certificate.parse")
+
+    def const(node):
+        try:
+            return env.eval(node, cls="Certificate")
+        except NotConst as exc:
+            raise Shape(f"Certificate.parse: pad byte is not constant ({exc})")
+
+    for n in ast.walk(fn):
+        if isinstance(n, ast.Call) and isinstance(n.func, ast.Attribute) and n.func.attr in ("rstrip", "strip"):
+            if len(n.args) == 0:
+                vals = sorted(b" \t\n\r\x0b\x0c")
+            elif len(n.args) == 1:
+                v = const(n.args[0])
+                if not isinstance(v, (bytes, bytearray)):
+                    raise Shape("Certificate.parse: strip argument is not bytes")
+                vals = sorted(set(v))
+            else:
+                raise Shape("Certificate.parse: strip call")
+            return 1, vals, False
+    loops = [n for n in ast.walk(fn) if isinstance(n, ast.While)]
+    if len(loops) != 1:
+        raise Shape("Certificate.parse: expected exactly one retry loop (or a strip call)")
+    tries = [s for s in loops[0].body if isinstance(s, ast.Try)]
+    if len(loops[0].body) != 1 or len(tries) != 1 or len(tries[0].handlers) != 1 or _dotted(tries[0].handlers[0].type) != "ValueError":
+        raise Shape("Certificate.parse: retry loop body")
+    t = tries[0]
+    if not (len(t.body) == 1 and isinstance(t.body[0], ast.Return) and isinstance(t.body[0].value, ast.Call)
+            and (_dotted(t.body[0].value.func) or "").endswith("load_der_x509_certificate")):
+        raise Shape("Certificate.parse: the loop does not return load_der_x509_certificate(data)")
+    hb = t.handlers[0].body
+    if not (len(hb) == 1 and isinstance(hb[0], ast.If) and len(hb[0].orelse) == 1 and isinstance(hb[0].orelse[0], ast.Raise)):
+        raise Shape("Certificate.parse: handler is not `if …: strip else: raise`")
+    iff = hb[0]
+    b = iff.body
+    if not (len(b) == 1 and isinstance(b[0], ast.Assign) and isinstance(b[0].value, ast.Subscript) and isinstance(b[0].value.slice, ast.Slice)
+            and b[0].value.slice.lower is None and b[0].value.slice.step is None and b[0].value.slice.upper is not None
+            and const(b[0].value.slice.upper) == -1 and _dotted(b[0].targets[0]) == _dotted(b[0].value.value)):
+        raise Shape("Certificate.parse: the loop does not remove exactly one trailing byte")
+    tests = iff.test.values if isinstance(iff.test, ast.BoolOp) and isinstance(iff.test.op, ast.And) else [iff.test]
+    vals, extra = None, False
+    for tst in tests:
+        src = ast.unparse(tst)
+        if isinstance(tst, ast.Compare) and len(tst.ops) == 1 and isinstance(tst.ops[0], ast.Eq) and isinstance(tst.left, ast.Subscript) \
+                and isinstance(tst.left.slice, ast.Slice) and tst.left.slice.upper is None and tst.left.slice.lower is not None \
+                and const(tst.left.slice.lower) == -1:
+            v = const(tst.comparators[0])
+            if not isinstance(v, (bytes, bytearray)) or len(v) != 1:
+                raise Shape("Certificate.parse: pad byte comparison")
+            vals = [v[0]]
+        elif isinstance(tst, ast.Compare) and len(tst.ops) == 1 and isinstance(tst.ops[0], ast.In) and "exc.args" in src:
+            if "ExtraData" not in str(const(tst.left)):
+                raise Shape("Certificate.parse: error-kind test")
+            extra = True
+        elif src in ("len(exc.args)", "exc.args", "len(exc.args) > 0", "len(exc.args) >= 1"):
+            continue
+        else:
+            raise Shape("Certificate.parse: unknown test in the retry condition: " + src)
+    if vals is None:
+        raise Shape("Certificate.parse: the retry condition does not test the last byte")
+    return 0, vals, extra
+
+
 PINNED = {
     "curves": [("SECP256R1", "secp256r1"), ("SECP384R1", "secp384r1"), ("SECP521R1", "secp521r1")],
     "coordlens": [("secp256r1", 32), ("secp384r1", 48), ("secp521r1", 66)],
@@ -349,8 +424,9 @@ PINNED = {
     "hash_from_sig_size": [(64, "sha256"), (96, "sha384"), (132, "sha512")],
     "sp_reserved": ["type", "identifier", "search_paths", "pss_padding"],
     "proxy_reserved": ["type", "search_paths", "data"],
-    "plainfile_init": (["file_path", "password", "hash_alg", "search_paths"], True, "kwargs"),
+    "plainfile_init": (["file_path", "password", "hash_alg", "search_paths", "pss_padding"], True, "kwargs"),
     "proxy_init": (["host", "port", "url_prefix", "timeout", "prehash"], True, "kwargs"),
+    "cert_pad": (0, [0], True),
 }
 
 
@@ -406,6 +482,13 @@ def gen_KeysTables() -> None:
     plainfile_init = get2("plainfile_init", lambda: g_init_params(sp_tree, "PlainFileSP"), sp_tree)
     proxy_init = get2("proxy_init", lambda: g_init_params(sp_tree, "HttpProxySP"), sp_tree)
 
+    try:
+        cert_tree = parse(CERT_SRC)
+    except (OSError, SyntaxError) as exc:
+        cert_tree = None
+        meta["fallback"]["certificate"] = f"unreadable: {exc}"
+    cert_pad = get2("cert_pad", lambda: g_cert_pad(cert_tree), cert_tree)
+
     def strlist(xs):
         return "[" + ", ".join('"%s"' % x for x in xs) + "]"
 
@@ -449,8 +532,15 @@ def gen_KeysTables() -> None:
          f"def plainFileKwargsName : String := \"{plainfile_init[2]}\"",
          f"def proxyInitParams : List String := {strlist(proxy_init[0])}",
          f"def proxyKwargsName : String := \"{proxy_init[2]}\"", "",
+         "/-- `Certificate.parse` (certificate.py): how the zero padding of the NXP encoding is removed before / while loading the DER form.",
+         "    mode 0 = retry loop (one trailing byte removed per failed load attempt), 1 = unconditional strip of every trailing pad byte;",
+         "    the byte values that may be removed; whether the retry also requires the loader's `ExtraData` error kind -/",
+         f"def certPadMode : Nat := {cert_pad[0]}",
+         "def certPadBytes : List Nat := [" + ", ".join(str(x) for x in cert_pad[1]) + "]",
+         f"def certPadNeedsExtraData : Bool := {'true' if cert_pad[2] else 'false'}", "",
          "end SpsdkVerif.Generated.KeysTables", ""]
-    meta["values"] = {"curves": curves, "coordinate_lengths": coordlens, "rsa_key_sizes": rsa_sizes, "ecc_default_hash": default_hash}
+    meta["values"] = {"curves": curves, "coordinate_lengths": coordlens, "rsa_key_sizes": rsa_sizes, "ecc_default_hash": default_hash,
+                      "cert_pad": {"mode": cert_pad[0], "bytes": list(cert_pad[1]), "needs_extra_data": cert_pad[2]}}
     emit("KeysTables", "\n".join(L), meta)
 
 
